@@ -7,6 +7,8 @@
 //	C. generated coroutine programs, compiled (ASan+UBSan and gcc -O2): one-shot vs every single
 //	   source split vs every single destination split vs random multi-splits.
 //	D. std decoders through the shared compiled driver (harness/cdrv): same oracle.
+//	N. (third part of D, stdnoic.go) image decoders driven by decode_frame_config calls WITHOUT a prior
+//	   decode_image_config (scripted `proto` runs): every split plan vs everything at once.
 //	H. (second part of D, stdhist.go) decoders that keep their own history ring: outputs several
 //	   times the ring, destination drained and compacted between calls around the ring thresholds.
 package main
@@ -50,13 +52,14 @@ func main() {
 		sectionBC(r, tc, want("B"), want("C"))
 		lap("BC")
 	}
-	if want("D") || want("H") {
-		sectionD(r, want("D"), want("H"))
+	if want("D") || want("H") || want("N") {
+		sectionD(r, want("D"), want("H"), want("D") || want("N"))
 		lap("D")
 	}
 	r.Finish("A: every coroutine of std/ and of generated packages (non-trivial = has a suspension point and a local; distinct by abstract body). " +
 		"B: every read method x byte strings x all compositions of the length; skip/write_u8 likewise (distinct by method+split). " +
 		"C: generated F3s programs x inputs x all single source splits, all single destination splits, random multi-splits (distinct by program+input+split). " +
 		"D: std decoders x valid/truncated/corrupted inputs x splits (distinct by codec+input+split). " +
+		"N: image decoders x test/data files x source plans, decode_frame_config without decode_image_config (distinct by codec+input+plan). " +
 		"H: decoders with their own history ring x inputs of several ring lengths with long-distance back-references x destination/source plans around the ring thresholds (distinct by codec+input+plan).")
 }
